@@ -13,7 +13,16 @@ import argparse, array, concurrent.futures as cf, glob, hashlib, json, os, re, s
 
 VERIF = os.path.dirname(os.path.abspath(__file__))
 REPO = os.environ.get("VF_REPO", "/repo")
-KNOWN = os.path.join(VERIF, "KNOWN_FINDINGS.txt")
+KNOWN_MAIN = os.path.join(VERIF, "KNOWN_FINDINGS.txt")
+KNOWN = os.path.join(tempfile.gettempdir(), "vf-known-%d.txt" % os.getpid())
+
+def collect_known():
+    """KNOWN_FINDINGS.txt plus known.d/*.txt (per-property staging files), concatenated."""
+    parts = []
+    for f in [KNOWN_MAIN] + sorted(glob.glob(os.path.join(VERIF, "known.d", "*.txt"))):
+        if os.path.exists(f):
+            parts.append(open(f).read())
+    open(KNOWN, "w").write("\n".join(parts))
 NCPU = os.cpu_count() or 4
 
 GOENV = dict(os.environ, GOFLAGS="-mod=mod", GOPROXY="off", GOSUMDB="off", GOTOOLCHAIN="local",
@@ -424,6 +433,9 @@ def setup():
     return rc
 
 def main():
+    import atexit
+    collect_known()
+    atexit.register(lambda: os.path.exists(KNOWN) and os.unlink(KNOWN))
     ap = argparse.ArgumentParser()
     sub = ap.add_subparsers(dest="cmd", required=True)
     sub.add_parser("setup")
